@@ -94,10 +94,13 @@ def run(ctx):
         lambda: lib.spec_check(ctx, "TagExpr", "TagExpr_mc2.cfg", workers=1, timeout=1500,
                                note="all sorted trees of depth<=2 over every operator, len/regexp/in and the full leaf alphabet"),
     ]
+    jobs.append(lambda: lib.spec_check(ctx, "TagExpr", "TagExpr_mc4.cfg", workers=2, timeout=1500,
+                                       note="in() with operator chains (<=2 binary operators) in every argument position, "
+                                            "len($) inside arithmetic chains: same theorems"))
     if not q:
         jobs.append(lambda: lib.spec_check(ctx, "TagExpr", "TagExpr_mc3.cfg", workers=4, timeout=2400,
                                            note="every boolean-sorted tree with <=3 binary operators over all 13 operators"))
-    with concurrent.futures.ThreadPoolExecutor(max_workers=4 if q else 10) as ex:
+    with concurrent.futures.ThreadPoolExecutor(max_workers=5 if q else 11) as ex:
         futs = [ex.submit(j) for j in jobs]
         sfuts = [ex.submit(simulate, ctx, "TagExprGen_sim_%s.cfg" % tier, 110 if q else 400, 8, "sim%d.ndjson" % k, k)
                  for k in range(nsim)]
@@ -203,7 +206,9 @@ def run(ctx):
                   "expected_invalid": by_verdict["invalid"], "depth_ge_4": deep, "distinct_expression_strings": len(exprs)},
         "rule": "TLC enumerates (a) every tree of depth<=2 over all 13 binary operators, !, -, len, regexp, in and 11 "
                 "leaves incl. $ (ill-typed combinations included) x 14 field values, (b) every boolean-sorted tree of "
-                "depth<=3 over the %s operator/leaf alphabet x every field value of the field's sort, each printed with "
+                "depth<=3 over the %s operator/leaf alphabet x every field value of the field's sort, every operator chain "
+                "with <=3 binary operators, in() calls whose arguments are operator chains (<=2 operators, every argument "
+                "position), len($) inside arithmetic chains, (x arith y) cmp z over all arithmetic operators; each printed with "
                 "minimal and with redundant parentheses in rotating spacing styles, and (c) seeded tlc -simulate walks "
                 "growing typed and untyped trees to depth %d. Every case is compiled afresh (unique run-time struct "
                 "type) and run by the real validator; TLC re-prints the tree, recomputes the documented verdict and "
